@@ -63,3 +63,65 @@ func debugConv(tier, replay string) int {
 	}
 	return 0
 }
+
+func init() { register("GENDIFF", genDiff) }
+
+// Development aid that measures generator reach against a seeded change:
+// GENDIFF_BIN=/path/to/other/drc GENDIFF_GEN=c14|conv GENDIFF_TYPE=ios GENDIFF_N=2000 ./check GENDIFF quick
+// counts the generated pairs on which the other drc prints a different script.
+func genDiff(tier, replay string) int {
+	env := run.Setup("GENDIFF", tier)
+	defer env.Cleanup()
+	env.BuildRepo(false)
+	other := os.Getenv("GENDIFF_BIN")
+	typ := os.Getenv("GENDIFF_TYPE")
+	n := 2000
+	fmt.Sscanf(os.Getenv("GENDIFF_N"), "%d", &n)
+	type res struct {
+		mode string
+		diff bool
+	}
+	out := make([]res, n)
+	env.Parallel(n, func(i int) {
+		var pc *pairCase
+		mode := ""
+		seed := env.Seed*1000003 + int64(i)
+		if os.Getenv("GENDIFF_GEN") == "c14" {
+			c := genC14(typ, seed)
+			pc = &pairCase{Model: modelOf(typ), Device: c.Device, Files: c.Files}
+			mode = c.Mode
+		} else {
+			g := genPair(typ, seed)
+			pc = g.pair()
+			mode = fmt.Sprint(g.Edits)
+		}
+		a := runPair(env, pc, true)
+		dir := env.CaseDir()
+		defer os.RemoveAll(dir)
+		files := map[string]string{"device": pc.Device, "code/router.info": run.InfoJSON(pc.Model, "router")}
+		for n, d := range pc.Files {
+			files["code/"+n] = d
+		}
+		run.WriteFiles(dir, files)
+		b := run.Exec(run.Cmd{Argv: []string{other, "-q", "device", "code/router"}, Dir: dir, Env: run.BaseEnv(dir), Timeout: 120e9})
+		out[i] = res{mode, a.Stdout != b.Stdout || a.Exit != b.Exit}
+	})
+	count := map[string][2]int{}
+	for _, r := range out {
+		c := count[r.mode]
+		c[0]++
+		if r.diff {
+			c[1]++
+		}
+		count[r.mode] = c
+	}
+	total := 0
+	for m, c := range count {
+		if c[1] > 0 || os.Getenv("GENDIFF_GEN") == "c14" {
+			fmt.Printf("%-40s cases=%d differing=%d\n", m, c[0], c[1])
+		}
+		total += c[1]
+	}
+	fmt.Printf("total differing %d of %d\n", total, n)
+	return 0
+}
